@@ -61,6 +61,9 @@ func (e *denv) twelve() bool {
 func (e *denv) seconds() bool {
 	return e.tf == envs.TimeFormatHourMinuteSecond || e.tf == envs.TimeFormatHourMinuteSecondAmPm
 }
+func (e *denv) fmtName() string {
+	return strings.ReplaceAll(string(e.df)+"_"+string(e.tf), " ", "_")
+}
 func (e *denv) localized() bool { return e.am != "am" || e.pm != "pm" }
 func (e *denv) coq() string {
 	return fmt.Sprintf("(Env %s %s %s %s %s)", coqDF[e.df], coqTF[e.tf], hx.Str(e.am), hx.Str(e.pm), hx.Z(int64(e.now.Year())))
@@ -362,13 +365,13 @@ func runDates(o *hx.Opts, res *hx.Result, r *hx.Rand) {
 		res.OracleChecks++
 		var fmtBack *time.Time
 		if bx, xerr := types.ToXDateTime(e.env, types.NewXText(fmtTxt)); xerr != nil {
-			res.Fail("envformat-datetime-not-reparsed:"+string(e.df)+" "+string(e.tf), input, fmt.Sprintf("Format gave %q, ToXDateTime failed: %s", fmtTxt, xerr.Error()))
+			res.Fail("envformat-datetime-not-reparsed:"+e.fmtName(), input, fmt.Sprintf("Format gave %q, ToXDateTime failed: %s", fmtTxt, xerr.Error()))
 		} else {
 			b := bx.Native()
 			fmtBack = &b
 			fa, fb := fieldsOf(t.In(e.loc), e.seconds()), fieldsOf(b.In(e.loc), e.seconds())
 			if fa != fb {
-				class := "envformat-datetime-roundtrip:" + string(e.df) + " " + string(e.tf)
+				class := "envformat-datetime-roundtrip:" + e.fmtName()
 				fc := fb
 				fc[3] = fa[3]
 				if e.twelve() && e.localized() && fc == fa && (fa[3]-fb[3]+24)%12 == 0 {
@@ -521,7 +524,7 @@ func runDates(o *hx.Opts, res *hx.Result, r *hx.Rand) {
 		for k, txt := range ttxts {
 			res.OracleChecks++
 			bx, xerr := types.ToXTime(e.env, types.NewXText(txt))
-			what := [2]string{"iso-time", "envformat-time:" + string(e.tf)}[k]
+			what := [2]string{"iso-time", "envformat-time:" + strings.ReplaceAll(string(e.tf), " ", "_")}[k]
 			if xerr != nil {
 				res.Fail(what+"-not-reparsed", tinput, fmt.Sprintf("%q: %s", txt, xerr.Error()))
 				continue
